@@ -8,7 +8,7 @@ THEOREMS = ["C20_freed_at_most_once", "C20_no_release_after_free", "C20_release_
             "C20_all_freed_after_root_release", "C20_user_objects_freed_exactly_once",
             "C20_checker_sound", "C20_supported_set_never_freed", "C20_primitives_preserve_wf",
             "C20_reachable_graphs_wf", "C20_every_simulation_releases_everything", "C20_model_output_all_freed",
-            "C20_drop_path_irrelevant"]
+            "C20_drop_path_irrelevant", "C20_counts_are_in_degrees"]
 QUICK_N = 2500; THOROUGH_N = 120000
 XCHECK_N = 30
 RULE = ("scripts = (module tree with nested children, 0..3 gates per module, gate links with/without a queueing channel forming chains, "
@@ -48,7 +48,11 @@ CLAIM = dict(
          "allocator on every run: generated simulations (nested module trees, gate chains and rings, channels with backlog, tasks blocked on "
          "timers/receives, shut-down/restarted/panicked modules, messages in the event set / channel queues / returned as remaining events / in "
          "the static buffer) are run on the real crate to every kind of stopping point, dropped, and compared with the extracted model (drop "
-         "counts per class, result, remaining events, end time, call log, heap growth); each simulation is run three times in one process, must "
+         "counts per class, result, remaining events, end time, call log, heap growth, and the Arc strong/weak reference counts of every "
+         "scripted object read at the stopping point before anything is dropped - gates, channels and Globals through the public API, module "
+         "contexts, processors, the tokio runtime, timer queues and slots and the module tree through the hook of fixes/hook_own_counts.diff - "
+         "which the model prints as in-degrees of its graph (C20_counts_are_in_degrees) and the monitor checks against what the schema's edge "
+         "types allow); each simulation is run three times in one process, must "
          "behave identically and must not make the live heap grow. Partial.",
     note="Partial: Rust's reference counting, drop glue and tokio are trusted/validated, not proved. The model touches its heap only through "
          "seven checked primitives (allocate behind a handle, clone, move into a field, move out, drop, record a Weak) that refuse an edge the "
@@ -59,6 +63,20 @@ CLAIM = dict(
     technique="Coq invariant proof over a worklist release machine (count = in-degree + pending handles), well-founded type-rank descent, "
               "supported-set argument for cycles; differential correspondence check with destructor counters and a counting allocator",
     design="6/C20")
+
+def _hook_present():
+    """is ModuleRef::verif_own_probe (fixes/hook_own_counts.diff) in the des sources the runner is built against?"""
+    import os, re
+    hd = os.environ.get("VERIF_HARNESS_DIR", os.path.join(os.path.dirname(os.path.dirname(os.path.dirname(os.path.abspath(__file__)))), "harness"))
+    try:
+        m = re.search(r'^des\s*=\s*\{[^}]*path\s*=\s*"([^"]+)"', open(os.path.join(hd, "Cargo.toml")).read(), flags=re.M)
+        des = m.group(1) if os.path.isabs(m.group(1)) else os.path.join(hd, m.group(1))
+        return "fn verif_own_probe" in open(os.path.join(des, "src/net/module/refs.rs")).read()
+    except Exception:
+        return False
+
+
+HOOKED = _hook_present()      # scripts ask for the hooked reference-count classes only if the runner can deliver them
 
 NS = 1000000000
 SELF_D = [0, 1, 5, 5, 10, 10, NS, NS + NS // 10, 2 * NS, 5 * NS // 2]
@@ -88,7 +106,7 @@ def encode(d):
 def decode(s):
     it = iter(list(s) + [0] * 400)
     nx = lambda: next(it)
-    d = {"stop": nx() % 6, "arg": nx(), "order": nx() % 4, "hold": nx() % 2, "mods": [], "links": [], "injs": []}
+    d = {"stop": nx() % 6, "arg": nx(), "order": nx() % 4, "hold": nx() % 4, "mods": [], "links": [], "injs": []}
     n = min(nx(), 6)
     for _ in range(n):
         m = {"parent": nx(), "npe": min(nx(), 2), "nsend": min(nx(), 8)}
@@ -171,7 +189,7 @@ def gen_script(rng):
     if stop == 3:
         arg = rng.choice(TIMES)
     order = rng.randint(0, 1) + (2 if rng.random() < 0.25 else 0)      # bit 1: dropped by unwinding
-    return encode({"stop": stop, "arg": arg, "order": order, "hold": rng.randint(0, 1),
+    return encode({"stop": stop, "arg": arg, "order": order, "hold": rng.randint(0, 1) + (2 if HOOKED else 0),
                    "mods": mods, "links": links[:12], "injs": injs})
 
 
@@ -208,7 +226,7 @@ def exhaustive():
     time (max_time), never frozen, never started, run to completion; both drop orders; with and without caller-held references"""
     for sim in FIXED:
         for order, hold in itertools.product((0, 1), (0, 1)):
-            base = dict(sim, order=order, hold=hold)
+            base = dict(sim, order=order, hold=hold + (2 if HOOKED else 0))
             for stop in (0, 1, 4):
                 yield encode(dict(base, stop=stop, arg=0))
                 yield encode(dict(base, stop=stop, arg=0, order=order + 2))      # ... dropped by unwinding
@@ -224,27 +242,109 @@ def exhaustive():
 
 # ----------------------------------------------------------------------------- output
 def parse(out):
-    """two records: ok res nrem time c0..c3 o0..o3 notonce alive nlog log*, then the heap-growth flag"""
+    """two records: ok res nrem time c0..c3 o0..o3 notonce alive nlog log* ncnt cnt*, then the heap-growth flag"""
     recs = []
     i = 0
     if not out:
         raise ValueError("empty output")
+    if out == [777]:
+        raise ValueError("the runner was built against sources without fixes/hook_own_counts.diff but the script asks for hooked counts")
     grew, out = out[-1], out[:-1]
     while i < len(out):
         if i + 15 > len(out):
             raise ValueError("truncated record")
         h = out[i:i + 15]
         n = h[14]
-        if i + 15 + 4 * n > len(out):
+        if i + 15 + 4 * n + 1 > len(out):
             raise ValueError("truncated log")
         lg = [tuple(out[i + 15 + 4 * k: i + 19 + 4 * k]) for k in range(n)]
+        j = i + 15 + 4 * n
+        nc = out[j]
+        if j + 1 + nc > len(out):
+            raise ValueError("truncated counts")
         recs.append({"ok": h[0], "res": h[1], "nrem": h[2], "time": h[3], "created": h[4:8], "once": h[8:12],
-                     "notonce": h[12], "alive": h[13], "log": lg})
-        i += 15 + 4 * n
+                     "notonce": h[12], "alive": h[13], "log": lg, "cnt": out[j + 1: j + 1 + nc]})
+        i = j + 1 + nc
     if len(recs) != 2:
         raise ValueError("expected two records, got %d" % len(recs))
     recs[0]["grew"] = recs[1]["grew"] = grew
     return recs
+
+
+def accepted_links(d):
+    """the links Gate::connect accepts, in order (same rule as both runners)"""
+    n = len(d["mods"])
+    nconn, pairs, out = {}, set(), []
+    for l in d["links"]:
+        a, b = (l[0], l[1]), (l[2], l[3])
+        if l[0] >= n or l[2] >= n or l[1] >= d["mods"][l[0]]["ngates"] or l[3] >= d["mods"][l[2]]["ngates"]:
+            continue
+        if a == b or (a, b) in pairs or nconn.get(a, 0) >= 2 or nconn.get(b, 0) >= 2:
+            continue
+        nconn[a] = nconn.get(a, 0) + 1; nconn[b] = nconn.get(b, 0) + 1
+        pairs.add((a, b)); pairs.add((b, a))
+        out.append(l)
+    return out
+
+
+def check_counts(d, r):
+    """the reference counts read at the stopping point against what the ownership schema's edge types allow
+    (coq/Own/Shape.v): exact where the schema fixes the number of holders, bounded elsewhere"""
+    c = list(r["cnt"])
+    if r["res"] == 2:
+        return None if not c else "reference counts reported after an error result"
+    mods = d["mods"]
+    hold = d["hold"] % 2
+    msgs = r["created"][3]
+    pend = r["nrem"] + len(mods)                  # events that can hold a ModuleRef: event set + static buffer
+    it = iter(c)
+    try:
+        g = (next(it), next(it))
+        if g != (1, 1):
+            return "Globals: (strong, weak) = %s, the schema has exactly Sim.globals and BUF_CTX's Weak: (1, 1)" % (g,)
+        if d["hold"] // 2:
+            t = (next(it), next(it))
+            if t != (2, 0):
+                return "module tree: (strong, weak) = %s, the schema has exactly Sim.modules and Globals.modules: (2, 0)" % (t,)
+            for i, m in enumerate(mods):
+                child = 1 if (m["parent"] != 0 and m["parent"] - 1 < i) else 0
+                nch = sum(1 for j, x in enumerate(mods) if x["parent"] == i + 1 and i < j)
+                cs, cw, ps, pw, rt, ls, qs, qw, n = [next(it) for _ in range(9)]
+                slots = [(next(it), next(it)) for _ in range(n)]
+                who = "module %d" % i
+                if (cs, cw) != (ps, pw):
+                    return "%s: context %s and processor %s are not held by the same ModuleRefs" % (who, (cs, cw), (ps, pw))
+                if cw != 1 + m["ngates"] + nch:
+                    return "%s: %d weak handles to the context; the schema has ctx.me + one per gate (owner) + one per child (parent) = %d" % (who, cw, 1 + m["ngates"] + nch)
+                if not (1 + child <= cs <= 1 + child + hold + pend):
+                    return "%s: %d strong handles to the context; the schema allows the tree, the parent, the caller and at most %d events" % (who, cs, pend)
+                if (rt, ls) not in ((0, 0), (1, 1)):
+                    return "%s: tokio runtime / local set counts %s; only the context holds them" % (who, (rt, ls))
+                if (qs, qw) != (1, n):
+                    return "%s: timer queue (strong, weak) = %s with %d pending slots; the schema has the driver's handle and one Weak per slot" % (who, (qs, qw), n)
+                for sl in slots:
+                    if sl[0] != 1 or sl[1] > 4 * 8:
+                        return "%s: timer slot (strong, weak) = %s; only the queue holds a slot, sleeping tasks hold Weak handles" % (who, sl)
+        for i, m in enumerate(mods):
+            for k in range(m["ngates"]):
+                s_, w_ = next(it), next(it)
+                if w_ != 0:
+                    return "gate %d of module %d: %d weak handles; the schema has none" % (k, i, w_)
+                if not (1 <= s_ <= 3 + hold + 3 * msgs):
+                    return "gate %d of module %d: %d strong handles; the schema allows its context, two peers, the caller and three per message" % (k, i, s_)
+        for l in accepted_links(d):
+            if l[4]:
+                for _ in range(2):
+                    s_, w_ = next(it), next(it)
+                    if w_ != 0:
+                        return "a channel has %d weak handles; the schema has none" % w_
+                    if not (1 <= s_ <= 2 + msgs):
+                        return "a channel has %d strong handles; the schema allows its gate, one unbusy event and one exit event per message" % s_
+    except StopIteration:
+        return "the list of reference counts is shorter than the script's objects"
+    if list(it):
+        return "the list of reference counts is longer than the script's objects"
+    return None
 
 
 CLASSES = ["module state", "processing element", "task capture", "message body"]
@@ -268,12 +368,15 @@ def monitor(script, out):
             return "%s: %d values dropped zero times or more than once" % (who, r["notonce"])
         if r["alive"] != 0:
             return "%s: %d user-visible values are still alive after everything was dropped" % (who, r["alive"])
+        msg = check_counts(decode(script), r)
+        if msg:
+            return "%s, at the stopping point: %s" % (who, msg)
     if recs[0]["grew"] != 0:
         return ("memory stays allocated: the live heap (bytes or blocks) is larger after a third execution of the same simulation "
                 "than after the second, although every simulation, its remaining events and all handles were dropped")
     a, b = recs
     if a != b:
-        for key in ("res", "nrem", "time", "created", "once", "log"):
+        for key in ("res", "nrem", "time", "created", "once", "log", "cnt"):
             if a[key] != b[key]:
                 return "the second simulation in the same process differs from the first in %s: %s vs %s" % (key, str(a[key])[:120], str(b[key])[:120])
         return "the second simulation in the same process differs from the first"
@@ -303,8 +406,10 @@ def mechanisms(script, out):
         ms.add("transit_gate")
     if valid and len(deg) >= 3 and all(v >= 2 for k, v in deg.items() if k[1] == 2) and sum(1 for k in deg if k[1] == 2) >= 3:
         ms.add("closed_gate_ring")
-    if d["hold"]:
+    if d["hold"] % 2:
         ms.add("caller_keeps_refs")
+    if d["hold"] // 2:
+        ms.add("hooked_reference_counts")
     if d["order"] % 2:
         ms.add("profiler_dropped_first")
     if d["order"] // 2:
@@ -377,7 +482,7 @@ def pretty(script):
     stop = ["built+frozen+dropped", "runtime built, never run", "max_itr(%d)" % d["arg"], "max_time(%dns)" % d["arg"],
             "run to completion", "start+dispatch_n_events(%d), abandoned" % d["arg"]][d["stop"]]
     s = "stop=%s order=%s%s hold=%d; " % (stop, "profiler,sim" if d["order"] % 2 else "sim,profiler",
-                                          " DROPPED BY UNWINDING" if d["order"] // 2 else "", d["hold"])
+                                          " DROPPED BY UNWINDING" if d["order"] // 2 else "", d["hold"] % 2)
     for i, m in enumerate(d["mods"]):
         s += "m%d(parent=%s pe=%d send=%d self=%s tasks=%s trig=%s gates=%d%s) " % (
             i, "m%d" % (m["parent"] - 1) if m["parent"] and m["parent"] - 1 < i else "-", m["npe"], m["nsend"], m["selfd"], m["tasks"],
